@@ -20,8 +20,8 @@ for q in (13, 31):
     t = "quick" if q == 13 else "thorough"
     OBLIGATIONS += [
         alg("do_sign", "h_do_sign", "sm2_do_sign: succeeds, satisfies GB/T 32918.2 for the nonce drawn, both verifiers accept", q, tier=t,
-            cbmc=["--no-unwinding-assertions"], unwindset=["sm2_do_sign.0:3", "sm2_do_sign.1:3", "sm2_do_sign.2:3"],
-            bounds="q=%d; nonce loop checked as an inductive step: two draws, every retry must be one of the standard's cases (asserted at the next draw), paths with a third draw cut" % q),
+            cbmc=["--no-unwinding-assertions"], unwindset=["sm2_do_sign.0:2", "sm2_do_sign.1:2", "sm2_do_sign.2:2"],
+            bounds="q=%d; nonce loop checked as an inductive step: one draw plus one retry (every retry must be one of the standard's cases, asserted at the next draw); longer retry runs cut" % q),
         alg("fast_sign", "h_fast_sign", "sm2_fast_sign (+compute_key): equations for the precomputed nonce, both verifiers accept, retry only in the standard's cases", q, tier=t),
         alg("fast_key_range", "h_fast_key_range", "sm2_fast_sign_compute_key refuses d = n-1", q, tier=t),
         alg("do_verify_sound", "h_verify_sound", "sm2_do_verify accepts exactly the valid tuples", q, tier=t, defs=["-DSMALL_Q=%d" % q, "-DVERIFY_FN=0"]),
@@ -62,7 +62,7 @@ OBLIGATIONS += [
         bounds="input length 1..12 bytes", thorough={"defs": ["-DLMAX=20"], "timeout": 3000, "bounds": "input length 1..20 bytes"}),
     der("from_der_capacity", "h_from_der_capacity", "sm2_signature_from_der: r or s longer than 32 bytes refused, no write outside SM2_SIGNATURE",
         bounds="input object 110 bytes, arbitrary contents, any claimed lengths"),
-    der("sig_roundtrip", "h_sig_roundtrip", "sm2_signature_to_der: dry run = written, decodes back, <= 72 bytes, all (r,s)", exact=True,
+    der("sig_roundtrip", "h_sig_roundtrip", "sm2_signature_to_der: dry run = written, decodes back, <= 72 bytes, all (r,s)", exact=True, tier="thorough", timeout=3000,
         bounds="none (all 2^512 (r,s))", unwind=41),
 ]
 
